@@ -49,6 +49,10 @@ func init() {
 			cfg.Mode = []string{"zstd", "uncompressed"}[h%2]
 			cfg.MaxSize = []int64{32768, 49152, 65536}[rng.Intn(3)]
 			cfg.Corrupt = h%3 != 2
+			if h%4 == 3 {
+				cfg.Storm = 72
+				cfg.MaxSize = 2 << 20
+			}
 			sr, err := drv.RunStress(cfg)
 			if err != nil {
 				res.Error = fmt.Sprintf("history %d: %v", h, err)
